@@ -357,13 +357,7 @@ class Engine:
         assert s[0] == "(" and s[-1] == ")", s
         inner = s[1:-1]
         if inner.startswith("*"): return self._parse_place(inner[1:]) + [("deref",)]
-        depth = 0
-        for i in range(len(inner)-1, -1, -1):
-            c = inner[i]
-            if c in ")]": depth += 1
-            elif c in "([": depth -= 1
-            elif depth == 0 and inner.startswith(" as ", i):
-                return self._parse_place(inner[:i]) + [("downcast", inner[i+4:])]
+        # field projection `(place.N: Type)` first: the ascribed type may itself contain ` as ` (`<impl X as Trait>::Assoc`)
         d = 0
         for i, c in enumerate(inner):
             if c == "(": d += 1
@@ -371,6 +365,13 @@ class Engine:
             elif c == "." and d == 0:
                 m2 = re.match(r"\.(\d+): ", inner[i:])
                 if m2: return self._parse_place(inner[:i]) + [("field", int(m2.group(1)))]
+        depth = 0
+        for i in range(len(inner)-1, -1, -1):
+            c = inner[i]
+            if c in ")]": depth += 1
+            elif c in "([": depth -= 1
+            elif depth == 0 and inner.startswith(" as ", i):
+                return self._parse_place(inner[:i]) + [("downcast", inner[i+4:])]
         raise ValueError("place? " + s)
 
     def place_slot(self, fr, s):
